@@ -493,6 +493,7 @@ func hasPort(s string) bool {
 func (conn *Conn) send(ctx context.Context) {
 	vhook("send.start", conn)
 	defer vhook("send.exit", conn)
+	sock := conn.sock
 	for {
 		select {
 		case line := <-conn.out:
@@ -502,7 +503,7 @@ func (conn *Conn) send(ctx context.Context) {
 				vhook("send.err", conn, err)
 				// We can't defer this, because Close() waits for it.
 				conn.wg.Done()
-				conn.Close()
+				conn.close(sock)
 				return
 			}
 		case <-ctx.Done():
@@ -520,6 +521,7 @@ func (conn *Conn) send(ctx context.Context) {
 func (conn *Conn) recv() {
 	vhook("recv.start", conn)
 	defer vhook("recv.exit", conn)
+	sock := conn.sock
 	for {
 		s, err := conn.io.ReadString('\n')
 		if err != nil {
@@ -529,7 +531,7 @@ func (conn *Conn) recv() {
 			vhook("recv.err", conn, err)
 			// We can't defer this, because Close() waits for it.
 			conn.wg.Done()
-			conn.Close()
+			conn.close(sock)
 			return
 		}
 		s = strings.Trim(s, "\r\n")
@@ -573,6 +575,7 @@ func (conn *Conn) ping(ctx context.Context) {
 func (conn *Conn) runLoop(ctx context.Context) {
 	vhook("loop.start", conn)
 	defer vhook("loop.exit", conn)
+	sock := conn.sock
 	for {
 		select {
 		case line := <-conn.in:
@@ -586,7 +589,7 @@ func (conn *Conn) runLoop(ctx context.Context) {
 
 			// We can't defer this, because Close() waits for it.
 			conn.wg.Done()
-			conn.Close()
+			conn.close(sock)
 			return
 		}
 	}
@@ -642,11 +645,19 @@ func (conn *Conn) rateLimit(chars int) time.Duration {
 // the sending or receiving goroutines encounter an error.
 // It may also be used to forcibly shut down the connection to the server.
 func (conn *Conn) Close() error {
+	return conn.close(nil)
+}
+
+// close tears down the connection that uses sock; a nil sock means whichever
+// connection is current. The goroutines of a connection pass the socket they
+// were started for, so that they can never tear down a connection that was
+// established after theirs had ended.
+func (conn *Conn) close(sock net.Conn) error {
 	// Guard against double-call of Close() if we get an error in send()
 	// as calling sock.Close() will cause recv() to receive EOF in readstring()
 	conn.mu.Lock()
 	vhook("close.lock", conn)
-	if !conn.connected {
+	if !conn.connected || (sock != nil && sock != conn.sock) {
 		vhook("close.noop", conn)
 		conn.mu.Unlock()
 		return nil
